@@ -1444,6 +1444,20 @@ fn limit_cases(out: &mut Out, r: &mut Rng, thorough: bool) {
             }
         }
     }
+    // the DEFAULT decoding limit (4 MiB) of server::Grpc / client::Grpc, i.e. no limit configured
+    // at all: a received message of exactly 4 MiB passes, one byte more is refused (audit-3 H1)
+    for which in [0u8, 3u8] {
+        for &len in &[4 * 1024 * 1024usize, 4 * 1024 * 1024 + 1] {
+            let shape = if which == 0 { 1 } else { 2 };
+            let mut c = gen_limit_case(r, shape, which, 4 * 1024 * 1024, len, 1);
+            c.sv.max_dec = None;
+            c.cl.max_dec = None;
+            c.qpend = vec![];
+            c.ppend = vec![];
+            if which == 0 { c.qcuts = vec![65536; 4]; } else { c.pcuts = vec![65536; 4]; }
+            run_case(out, &format!("{}_default", limit_kind(which, shape)), &c);
+        }
+    }
     // limits that do not fit a u32 (a limit stored in 32 bits wraps: 2^32 -> 0, 2^32+16 -> 16):
     // small messages around the wrapped values must all pass
     for which in 0..4u8 {
